@@ -604,13 +604,15 @@ def compile(object, return_code=False):
 
     reserved_names = {name for names_ in name_hints.values() for name in names_}
     names = (name for name in names() if not keyword.iskeyword(name) and name not in reserved_names)
+    used_hint_names = set()
     for group in groups:
         group_name_hints = [name_hints[id(var)] for var in group if id(var) in name_hints]
         group_name_hints = [name for names in group_name_hints for name in names]
-        if len(group_name_hints) != 1:
+        if len(group_name_hints) != 1 or group_name_hints[0] in used_hint_names:
             name = next(names)
         else:
             name = group_name_hints[0]
+            used_hint_names.add(name)
         for var in group:
             assert id(var) not in variableid_to_name
             variableid_to_name[id(var)] = name
